@@ -37,6 +37,7 @@
        before/after oracle of harness/c03_passes.py;
      * C03_source_pipeline_shape: the pass list read from the current source has the shape this argument needs. *)
 From Coq Require Import List String ZArith Bool.
+Require OV.Shape.Extra OV.Shape.ExtraProofs.       (* C09's Concat shape lemmas, read-only; not imported: names clash with Opt/Fold.v *)
 Require Import OV.Graph.Syntax OV.Graph.Sem OV.Graph.Names OV.Graph.SemProofs OV.Gen.FoldTables.
 Require Import OV.Opt.Fold OV.Opt.SemLemmas OV.Opt.FoldProofs OV.Opt.FoldNested OV.Opt.FoldTheorems.
 Require Import OV.Opt.Dce OV.Opt.DceProofs OV.Opt.Cse OV.Opt.CseProofs OV.Opt.Pipeline OV.Opt.PipelineProofs OV.Gen.OptPipeline OV.Opt.PipelineShape.
@@ -227,3 +228,37 @@ Theorem C03_source_pipeline_shape :
   pipeline_ok src_prefix_guard src_prefix src_loop src_steps src_early_stop src_post = true.
 Proof. exact source_pipeline_shape_ok. Qed.
 Print Assumptions C03_source_pipeline_shape.
+
+(* ---- the Concat evaluator and zero-length operands: as read (before fix 37f3956) / repaired.  Which variant the source is
+   in is read by the translator (Gen/FoldTables.v: concat_drop_checks_other_dims); Opt/Fold.v: pe_concat follows it and the
+   decision-trace correspondence compares it with the real evaluator.  In the theorems of the pass the evaluator enters
+   through pe_ok for either variant (refinement is one-directional: dropping a run-time shape check is not a change of what
+   a model computes on inputs it accepts, C03; it is what C09 objects to). *)
+Theorem C03_concat_as_read_drops_unchecked_operand :
+  match pe_concat_variant Z (fun _ => DT_INT64) (fun _ => []) (fun z => Some [z]) false (cc_state (DSym "N") (DSym "M")) cc_node with
+  | PRepl _ _ [Node "" "Concat" [Some "y"] ["z"] [("axis", AInt 1)] []] => True
+  | _ => False
+  end.
+Proof. exact concat_as_read_drops_unchecked_operand. Qed.
+Print Assumptions C03_concat_as_read_drops_unchecked_operand.
+
+(* ... and the replacement then accepts bindings the original rejects (x:[N,0], y:[M,2], axis 1 at N=2, M=3) *)
+Theorem C03_concat_as_read_accepts_more_refuted : exists axis ops r,
+  ExtraProofs.droppable 1 ops /\ Extra.concat_shape axis (map snd ops) = None /\ Extra.concat_shape axis (ExtraProofs.kept ops) = Some r.
+Proof. exact ExtraProofs.concat_drop_accepts_exactly_refuted. Qed.
+Print Assumptions C03_concat_as_read_accepts_more_refuted.
+
+Theorem C03_concat_fixed_keeps_unchecked_drops_checked :
+  match pe_concat_variant Z (fun _ => DT_INT64) (fun _ => []) (fun z => Some [z]) true (cc_state (DSym "N") (DSym "M")) cc_node with
+  | PNone _ _ => True | _ => False end /\
+  match pe_concat_variant Z (fun _ => DT_INT64) (fun _ => []) (fun z => Some [z]) true (cc_state (DSym "N") (DSym "N")) cc_node with
+  | PRepl _ _ [Node "" "Identity" [Some "y"] ["z"] [] []] => True | _ => False end.
+Proof. exact (conj concat_repaired_keeps_unchecked_operand concat_repaired_drops_checked_operand). Qed.
+Print Assumptions C03_concat_fixed_keeps_unchecked_drops_checked.
+
+(* the repaired drop condition makes the kept Concat accept exactly what the original accepts, with the same shape *)
+Theorem C03_concat_fixed_accepts_exactly : forall axis ops ref ax,
+  In (true, ref) ops -> Extra.norm_axis (Z.of_nat (List.length ref)) axis = Some ax -> ExtraProofs.droppable_ref ax ref ops ->
+  Extra.concat_shape axis (ExtraProofs.kept ops) = Extra.concat_shape axis (map snd ops).
+Proof. exact ExtraProofs.concat_drop_fixed_accepts_exactly. Qed.
+Print Assumptions C03_concat_fixed_accepts_exactly.
